@@ -91,6 +91,7 @@ class Info(object):
         self.n = int(sum(l.size for l in ls))
         big = max(int(l.size) for l in ls)
         self.sizeclass = 'small' if big < SMALL else ('medium' if big < MEDIUM else 'large')
+        self.big = big >= 10000
         self.skind = ('pspace' if is_ps(space) else
                       'discr' if isinstance(space, odl.DiscretizedSpace) else 'tensor')
         self.dkind = {'f': 'float', 'c': 'complex', 'i': 'int', 'u': 'uint'}[self.kind]
@@ -184,13 +185,50 @@ class Reg(object):
         for v, o, n in zip(self.views, self.offs, self.sizes):
             v[...] = flat[o:o + n].reshape(v.shape)
 
+    # snapshots: exact (bit-wise) comparison of the wrapped memory before / after a call
     def bytes(self):
-        if len(self.views) == 1:
-            return self.views[0].tobytes()
-        return b''.join(v.tobytes() for v in self.views)
+        return _snap(self.views)
+
+    def same(self, snap):
+        return _same(self.views, snap)
 
     def gapbytes(self):
-        return b''.join(g.tobytes() for g in self.gaps)
+        return _snap(self.gaps)
+
+    def gaps_same(self):
+        return _same(self.gaps, self.gap0)
+
+
+def _bits(a):
+    """Integer views of an array (any strides) so that equality is bit-wise."""
+    k = a.dtype.kind
+    if k == 'c':
+        return _bits(a.real) + _bits(a.imag)
+    if k == 'f':
+        return [a.view('u%d' % a.dtype.itemsize)]
+    return [a]
+
+
+def _snap(arrs):
+    out = []
+    for a in arrs:
+        if a.size < 4096:
+            out.append(a.tobytes())
+        else:
+            out.append([b.copy(order='K') for b in _bits(a)])
+    return out
+
+
+def _same(arrs, snap):
+    for a, s in zip(arrs, snap):
+        if isinstance(s, bytes):
+            if a.tobytes() != s:
+                return False
+        else:
+            for b, c in zip(_bits(a), s):
+                if not np.array_equal(b, c):
+                    return False
+    return True
 
 
 def nest(space, flat, as_list=False, dtype=None):
@@ -209,11 +247,18 @@ def nest(space, flat, as_list=False, dtype=None):
 # ------------------------------------------------------------------------------------------
 # scalars
 
-def scalars(kind, tier):
+def scalars(kind, tier, big=False):
     """Scalar alphabet S: 0, 1, -1, generic (2, 1/2), complex; python ints and floats mixed.
 
     |a|^2 is a power of two for the exact ones, so the divide-then-multiply of the fallback
-    axpy is exact.  thorough adds 3 and 1+0.5j, judged with a stated tolerance."""
+    axpy is exact.  thorough adds 3 and 1+0.5j, judged with a stated tolerance.  In the quick
+    tier arrays of >= BIG entries use one representative per scalar class."""
+    if big and tier == 'quick':
+        if kind == 'i':
+            return [0, 1, -1, 2]
+        if kind == 'u':
+            return [0, 1, 2]
+        return [0, 1, -1, 2.0] + ([1 + 1j] if kind == 'c' else [])
     if kind == 'i':
         return [0, 1, -1, 2, 3]
     if kind == 'u':
@@ -401,7 +446,7 @@ class Ctx(object):
                 self.viol(fam, 'result_differs' + where, '%s: %s' % (
                     label, self.diff_detail(got, exp, tol, operands)))
                 ok = False
-            if self.regs[mut].gaps and self.regs[mut].gapbytes() != self.regs[mut].gap0:
+            if self.regs[mut].gaps and not self.regs[mut].gaps_same():
                 self.viol(fam, 'memory_outside_view_written',
                           '%s wrote between the entries of the strided output' % label)
                 ok = False
@@ -409,7 +454,7 @@ class Ctx(object):
                     g[...] = GAPVAL
         dirty = False
         for m in range(self.nreg):
-            if m != mut and self.regs[m].bytes() != self.snaps[m]:
+            if m != mut and not self.regs[m].same(self.snaps[m]):
                 # a shared-parts register is the same memory as nothing else; any change counts
                 self.viol(fam, 'operand_modified',
                           '%s changed register r%d which is not the output: %s' % (
@@ -442,7 +487,7 @@ def run_lincomb(cfg):
     cx = Ctx(cfg)
     sp, E, regs, info = cx.space, cx.E, cx.regs, cx.info
     dt = info.dtype
-    S = scalars(info.kind, cx.tier)
+    S = scalars(info.kind, cx.tier, info.big)
     A = S if cfg.get('a') is None else [S[cfg['a']]]
     P = R.poison_fill(dt, info.n)
     nreg = cx.nreg
@@ -493,7 +538,7 @@ def run_arith(cfg):
     sp, E, regs, info = cx.space, cx.E, cx.regs, cx.info
     dt, kind = info.dtype, info.kind
     mode = cfg['mode']
-    S = scalars(kind, cx.tier)
+    S = scalars(kind, cx.tier, info.big)
     P = R.poison_fill(dt, info.n)
     W = R.wide(dt)
     isint = kind in 'iu'
@@ -504,10 +549,19 @@ def run_arith(cfg):
     def cast(x):
         return np.asarray(x).astype(dt)
 
+    cov = [set(), set(), set()]
     for phase in range(cx.phases()):
         cx.load(phase, mode)
         C = cx.C
         Cw = [c.astype(W) for c in C]
+        # operations with ONE element operand are run for register i only in the phases that
+        # bring it a value it has not held yet (all 5 values are reached in every state)
+        news = []
+        for i in rng3:
+            vals = set(np.unique(C[i]).tolist())
+            news.append(not vals <= cov[i])
+            cov[i] |= vals
+        one = [i for i in rng3 if news[i]]
 
         # ---- element (op) element, out of place and in place, all 9 ordered pairs
         BIN = [('+', 'add_sub', operator.add, operator.iadd, R.add, True),
@@ -558,7 +612,7 @@ def run_arith(cfg):
 
             def tol_of(expw):
                 return None if ex else TOL_ULPS * cx.eps * np.abs(expw).astype(float)
-            for i in rng3:
+            for i in one:
                 X = Cw[i]
                 ops = (('x', C[i]),)
                 e_mul = cast(a * X)
@@ -601,7 +655,7 @@ def run_arith(cfg):
                              tol=tol_of(ew), operands=ops, sig='a/x:' + sc)
 
         # ---- unary, copy, assign, zero, one, set_zero
-        for i in rng3:
+        for i in one:
             ops = (('x', C[i]),)
             if kind != 'u':
                 cx.check('scalar_mul', '-r%d' % i, lambda: -E[i], cast(-Cw[i]), operands=ops,
@@ -633,7 +687,7 @@ def run_arith(cfg):
 
         # ---- other calling conventions of lincomb
         for a in S:
-            for i in rng3:
+            for i in one:
                 exp = R.lincomb(a, C[i], 0, C[i], dt)
                 ops = (('x1', C[i]),)
                 cx.check('lincomb', 'space.lincomb(%r, r%d)' % (a, i),
@@ -647,17 +701,19 @@ def run_arith(cfg):
                             a, i, k, ' [out prefilled with nan/huge]' if var else ''),
                             lambda: sp.lincomb(a, E[i], out=E[k]), exp, mut=k, operands=ops,
                             sig='1op:%s:%s' % ('same' if i == k else 'diff', sclass(a)))
-            for b in S:
-                if not (dyadic(a, kind) and dyadic(b, kind)):
-                    continue
-                for i in rng3:
-                    for j in rng3:
-                        exp = R.lincomb(a, C[i], b, C[j], dt)
-                        ops = (('x1', C[i]), ('x2', C[j]))
-                        cx.check('lincomb', 'space.lincomb(%r, r%d, %r, r%d)' % (a, i, b, j),
-                                 lambda: sp.lincomb(a, E[i], b, E[j]), exp, operands=ops,
-                                 sig='2op:new:%s,%s' % (sclass(a), sclass(b)))
-                        k = (i + j + 1) % 3
+        # (all of S^2 x 27 triples is the lincomb kind; here one pair per scalar, all triples)
+        for p_, a in enumerate(S):
+            b = S[(p_ + 2) % len(S)]
+            if not (dyadic(a, kind) and dyadic(b, kind)):
+                continue
+            for i in rng3:
+                for j in rng3:
+                    exp = R.lincomb(a, C[i], b, C[j], dt)
+                    ops = (('x1', C[i]), ('x2', C[j]))
+                    cx.check('lincomb', 'space.lincomb(%r, r%d, %r, r%d)' % (a, i, b, j),
+                             lambda: sp.lincomb(a, E[i], b, E[j]), exp, operands=ops,
+                             sig='2op:new:%s,%s' % (sclass(a), sclass(b)))
+                    for k in rng3:
                         cx.check('lincomb', 'r%d.lincomb(%r, r%d, %r, r%d)' % (k, a, i, b, j),
                                  lambda: E[k].lincomb(a, E[i], b, E[j]), exp, mut=k,
                                  ret_is_out=False, operands=ops,
@@ -672,7 +728,7 @@ def run_arith(cfg):
                 continue
             if n > nmax:
                 continue
-            for i in rng3:
+            for i in one:
                 exp = R.ipow(C[i], n, dt)
                 ops = (('x', C[i]),)
                 cx.check('pow', 'r%d ** %d' % (i, n), lambda: E[i] ** n, exp, operands=ops,
@@ -770,7 +826,7 @@ def run_bcast(cfg):
 
         def bchk(label):
             for m, r in enumerate(B):
-                if r.bytes() != bsn[m]:
+                if not r.same(bsn[m]):
                     cx.viol(F_PB, 'operand_modified',
                             '%s changed the base-space operand b%d' % (label, m))
                     r.set(CB[m])
@@ -946,7 +1002,7 @@ def run_hist(cfg):
                                 ' ; '.join(h), bad,
                                 [s.ravel()[R.first_diff(got, narrow[m])].item() for s in st]))
                     continue
-                if any(r.gaps and r.gapbytes() != r.gap0 for r in regs):
+                if any(r.gaps and not r.gaps_same() for r in regs):
                     cx.viol('history', 'memory_outside_view_written', 'history %s' % ' ; '.join(h))
                     for r in regs:
                         for g in r.gaps:
@@ -1004,11 +1060,13 @@ DISCR_T = DISCR_Q + [['U', [99], 'float64'], ['U', [250, 200], 'float64'],
 
 
 def _lay_combos(ndim, tier, maxdev):
+    """Layout triples: every uniform triple (L, L, L) (BLAS needs all three C or all three F),
+    plus all triples with at most ``maxdev`` registers deviating from C (None: full product)."""
     L = layouts_for(ndim, tier)
     out = []
     for c in itertools.product(L, repeat=3):
         dev = sum(1 for l in c if l != 'C')
-        if maxdev is None or dev <= maxdev:
+        if maxdev is None or dev <= maxdev or len(set(c)) == 1:
             out.append((dev, [L.index(l) for l in c], list(c)))
     out.sort(key=lambda t: (t[0], t[1]))
     return [c for _, _, c in out]
@@ -1048,45 +1106,67 @@ def _spec_is_power(spec):
     return spec[0] == 'W'
 
 
+BIG = 10000        # states over arrays this large are split / use fewer layout triples
+
+
+def _is_big(spec):
+    return _spec_maxleaf(spec) >= BIG
+
+
 def _lincomb_cfgs(spec, lay, tier, shared=False):
     """Large states are split over the first scalar so that one state stays below ~1 s."""
     base = {'kind': 'lincomb', 'space': spec, 'lay': lay, 'tier': tier}
     if shared:
         base['shared'] = 1
-    if _spec_maxleaf(spec) >= 10000:
-        nS = len(scalars(R.kind(_spec_dtype(spec)), tier))
+    if _is_big(spec):
+        nS = len(scalars(R.kind(_spec_dtype(spec)), tier, True))
         return [dict(base, a=a) for a in range(nS)]
     return [base]
+
+
+def _ndev(c):
+    return sum(1 for l in c if l != 'C')
 
 
 def configs(tier):
     thorough = tier == 'thorough'
     dts = DT_T if thorough else DT_Q
     cfgs = []
-    tens = []       # (spec, layout combos)
-    shapes = [[n] for n in ONE_D] + TWO_D + (THREE_D_T if thorough else THREE_D)
+    one_d = ONE_D if thorough else [n for n in ONE_D if n != 50001]
+    shapes = [[n] for n in one_d] + TWO_D + (THREE_D_T if thorough else THREE_D)
     shapes.sort(key=lambda s: (int(np.prod(s)), len(s)))
-    for dt in dts:
-        for sh in shapes:
-            nd = len(sh)
-            size = int(np.prod(sh))
-            if thorough:
-                maxdev = 2 if ((nd == 3 and size >= MEDIUM) or size < 25) else None
-            else:
-                maxdev = 1 if size < 25 else 2
-            tens.append((['T', sh, dt], _lay_combos(nd, tier, maxdev)))
+    tens = [['T', sh, dt] for dt in dts for sh in shapes]
     discr = DISCR_T if thorough else DISCR_Q
     psp = PSPACES_T if thorough else PSPACES_Q
 
+    def lin_combos(spec):
+        nd, size = _spec_ndim(spec), _spec_size(spec)
+        if spec[0] != 'T':
+            return _lay_combos(nd, tier, 1)
+        if thorough:
+            if size < 25:
+                md = 2
+            elif _is_big(spec):
+                md = 2 if (nd < 3 and spec[2] in DT_Q) else 1
+            else:
+                md = None
+        else:
+            md = 2 if 25 <= size < BIG else (1 if size > 1 else 0)
+        return _lay_combos(nd, tier, md)
+
+    def ar_combos(spec):
+        # the derived API is a thin layer over lincomb/multiply/divide: fewer layout triples
+        nd, size = _spec_ndim(spec), _spec_size(spec)
+        if spec[0] != 'T':
+            return _lay_combos(nd, tier, 1)
+        c = _lay_combos(nd, tier, 2 if (thorough and 25 <= size < BIG) else 1)
+        if size < 25 or (_is_big(spec) and not thorough):
+            c = [x for x in c if len(set(x)) == 1] + [x for x in c if _ndev(x) == 1][:1]
+        return c
+
     # ---- lincomb
-    for spec, combos in tens:
-        for lay in combos:
-            cfgs += _lincomb_cfgs(spec, lay, tier)
-    for spec in discr:
-        for lay in _lay_combos(_spec_ndim(spec), tier, 1 if not thorough else 2):
-            cfgs += _lincomb_cfgs(spec, lay, tier)
-    for spec in psp:
-        for lay in _lay_combos(_spec_ndim(spec), tier, 1):
+    for spec in tens + discr + psp:
+        for lay in lin_combos(spec):
             cfgs += _lincomb_cfgs(spec, lay, tier)
         if _spec_is_power(spec):
             cfgs += _lincomb_cfgs(spec, ['C', 'C', 'C'], tier, shared=True)
@@ -1094,18 +1174,10 @@ def configs(tier):
     # ---- arith
     def modes(spec):
         return ['V'] if R.kind(_spec_dtype(spec)) in 'iu' else ['V', 'D']
-    for spec, combos in tens:
-        # the derived API is a thin layer over lincomb/multiply/divide: fewer layout combinations
-        md = 2 if thorough else 1
-        use = [c for c in combos if sum(1 for l in c if l != 'C') <= md]
-        if _spec_size(spec) < 25:
-            use = use[:2]
-        for lay in use:
-            for mode in modes(spec):
-                cfgs.append({'kind': 'arith', 'space': spec, 'lay': lay, 'mode': mode,
-                             'tier': tier})
-    for spec in discr + psp:
-        for lay in _lay_combos(_spec_ndim(spec), tier, 1):
+    for spec in tens + discr + psp:
+        if spec[0] == 'T' and not thorough and spec[1] == [49999]:
+            continue        # same regime as 100..49998 for everything above lincomb
+        for lay in ar_combos(spec):
             for mode in modes(spec):
                 cfgs.append({'kind': 'arith', 'space': spec, 'lay': lay, 'mode': mode,
                              'tier': tier})
@@ -1114,8 +1186,7 @@ def configs(tier):
     for spec in psp:
         if not _spec_is_power(spec):
             continue
-        blays = ['C'] + (['S0'] if True else [])
-        for bl in blays:
+        for bl in ('C', 'S0'):
             for mode in modes(spec):
                 cfgs.append({'kind': 'bcast', 'space': spec, 'lay': ['C', 'C', 'C'],
                              'blay': bl, 'mode': mode, 'tier': tier})
@@ -1125,17 +1196,16 @@ def configs(tier):
            (RN(101, 'complex128'), ['C', 'C', 'C']), (RN(100, 'float32'), ['S0', 'C', 'C']),
            (['T', [10, 10], 'float64'], ['C', 'F', 'C']), (RN(3, 'int64'), ['C', 'C', 'C']),
            (RN(100, 'int64'), ['C', 'C', 'C']),
-           (['W', RN(3), 2], ['C', 'C', 'C']), (['U', [100], 'float64'], ['C', 'C', 'C']),
-           (RN(50000), ['C', 'C', 'C'])]
+           (['W', RN(3), 2], ['C', 'C', 'C']), (['U', [100], 'float64'], ['C', 'C', 'C'])]
     if thorough:
-        hsp += [(RN(99), ['C', 'C', 'C']), (RN(50000), ['C', 'S0', 'C']),
+        hsp += [(RN(99), ['C', 'C', 'C']), (RN(50000), ['C', 'C', 'C']),
+                (RN(50000), ['C', 'S0', 'C']),
                 (RN(50000, 'complex128'), ['C', 'C', 'C']),
                 (['T', [250, 200], 'float64'], ['F', 'F', 'F']),
                 (['T', [250, 200], 'float32'], ['F', 'C', 'F']),
                 (['P', RN(120), RN(3)], ['C', 'C', 'C'])]
     for spec, lay in hsp:
-        big = _spec_maxleaf(spec) >= 10000
-        depth = 3 if (thorough and not big) else 2
+        depth = 3 if (thorough and not _is_big(spec)) else 2
         nops = hist_alphabet_size(R.kind(_spec_dtype(spec)))
         for f in range(nops):
             cfgs.append({'kind': 'hist', 'space': spec, 'lay': lay, 'depth': depth, 'first': f,
